@@ -6,4 +6,6 @@ from harness.build import Scratch
 def run(chk):
     with Scratch() as sc:
         motion.run(chk, sc)
+        from checks import initcfg
+        initcfg.run(chk, sc, "C12")          # the initial molecules as the real input handlers generate them
         runlevel.run_for(chk, "C12", sc)
